@@ -91,6 +91,12 @@ ASM_SRC.update({
     "syn": {"text": b"LDAC LDAC\n", "kind": "reject", "lex": True},          # unexpected token
     "late": {"text": b"BR nowhere\n", "kind": "reject", "lex": True},         # unknown label (CodeGen ctor)
     "opr": {"text": b"OPR FOO\n", "kind": "reject", "lex": True},             # invalid OPR operand
+    # rejections that a change could move behind the point where the output file is opened: an instruction mnemonic as OPR
+    # operand, an unknown label after code that could already be emitted, an absolute reference to an unaligned label
+    "oprins": {"text": b"LDAC 1\nOPR BRN\n", "kind": "reject", "lex": True},
+    "oprins2": {"text": b"LDAC 1\nLDAC 2\nLDAC 3\nLDAC 4\nLDAC 5\nOPR LDAC\n", "kind": "reject", "lex": True},
+    "late2": {"text": b"LDAC 1\nLDAC 2\nLDAC 3\nLDAC 4\nLDAC 5\nBR nowhere\n", "kind": "reject", "lex": True},
+    "unal": {"text": b"LDAC 1\nLDAC lab\nlab\nLDAC 2\n", "kind": "reject", "lex": True},
     "empty": {"text": b"", "kind": "ambiguous", "lex": True},                 # (D5 / C10 territory)
 })
 X_SRC = {f"e{v}".replace("-", "m"): {"text": x_exit(v), "kind": "valid", "lex": True, "exit": v} for v in EXITS}
@@ -99,6 +105,10 @@ X_SRC.update({
     "syn": {"text": b"proc main( is skip\n", "kind": "reject", "lex": True},     # syntax error
     "sem": {"text": b"proc main() is x := 1\n", "kind": "reject", "lex": True},  # unknown symbol (ConstProp)
     "call": {"text": b"proc main() is foo()\n", "kind": "reject", "lex": True},  # unknown procedure
+    # rejected by later stages of the compiler (constant evaluation, array length, assembly of the generated code)
+    "nonconst": {"text": b"var v; val c = v; proc main() is 0(c)\n", "kind": "reject", "lex": True},
+    "redecl": {"text": b"proc p() is skip proc p() is skip proc main() is p()\n", "kind": "reject", "lex": True},
+    "sysc": {"text": b"proc main() is 9(1)\n", "kind": "reject", "lex": True},
     "empty": {"text": b"", "kind": "ambiguous", "lex": True},
 })
 
@@ -471,7 +481,7 @@ def make_case(ctx, tool, items, extra_args=None, present=True, pre_out=None, out
                 expect = {"kind": "reject", "why": "input file missing"}
             else:
                 listing = rd["mode"] != "binary"
-                stage_ok = srcinfo["lex"] if rd["mode"] == "tokens" else (srcinfo["kind"] == "valid")
+                stage_ok = srcinfo["lex"] if rd["mode"] == "tokens" else (srcinfo["kind"] == "valid" or rd["mode"] in srcinfo.get("ok_modes", ()))
                 if srcinfo["kind"] == "ambiguous" and rd["mode"] != "tokens":
                     # status 0 requires the output to exist, so an uncreatable output still has to be reported
                     expect = {"kind": "consistent", "out": None if listing else rd["out"]}
